@@ -90,16 +90,18 @@ class QueueHooks(QHooks):
                               'intd/<n> created while mess/<n> is %s' % self.st(E, 'G:messfd'), E)
                     E.set('$exists:intd', fs(1))
         if path == 'G:messnum':
+            sb = E.get('$statbuf')
+            sb = next(iter(sb)) if sb else None
             self.site('C01.4-name-is-inode', 'messnum-from-fstat', x,
-                      self.flag(E, 'inode') == 1 and x.args[1].path() == 'G:pidst.st_ino',
+                      self.flag(E, 'inode') == 1 and sb is not None and x.args[1].path() == sb + '.st_ino',
                       'messnum must be the inode of the file opened by pidopen (checked fstat of messfd)', E)
             E.set('$messnum', fs(1))
 
     def prim_fstat(self, E, x, args):
         p = x.args[0].path()
         tgt = x.args[1].strip()
-        ok_target = p == 'G:messfd' and tgt.k == 'un' and tgt.args[0].path() == 'G:pidst'
-        return [Outcome(ret=fs(0), sets={'$inode': fs(1 if ok_target else 0)}),
+        ok_target = p == 'G:messfd' and tgt.k == 'un' and tgt.op == '&' and tgt.args[0].path() is not None
+        return [Outcome(ret=fs(0), sets={'$inode': fs(1 if ok_target else 0), '$statbuf': fs(tgt.args[0].path()) if ok_target else TOP}),
                 Outcome(ret=fs(-1), sets={'$inode': fs(0)}, log='fstat fails')]
 
     def prim_fnnum(self, E, x, args):
